@@ -79,6 +79,7 @@ def gen_cases(tier: str, seed: int):
         yield {"kind": "sessions", "seed": r.randrange(1 << 30)}
         yield {"kind": "tokens", "seed": r.randrange(1 << 30)}
         yield {"kind": "reshape", "seed": r.randrange(1 << 30)}
+        yield {"kind": "describe", "seed": r.randrange(1 << 30)}
     # zoo templates in lock-step
     reps = 2 if tier == "quick" else 30
     tags = [z["tag"] for z in zoo.ZOO]
@@ -184,7 +185,7 @@ def _canon(v: Any) -> Any:
     if isinstance(v, datetime.datetime) and v.tzinfo is not None:
         return ("aware", v.astimezone(datetime.timezone.utc).replace(tzinfo=None), v.utcoffset())
     if isinstance(v, (bytes, bytearray)):
-        return ("bytes", bytes(v))
+        return (type(v).__name__, bytes(v))
     if isinstance(v, float) and v != v:
         return ("nan",)
     return (type(v).__name__, v)
@@ -338,6 +339,8 @@ def run_case(case: dict, env: core.Env) -> None:
         return _tokens(case, env)
     if kind == "reshape":
         return _reshape(case, env)
+    if kind == "describe":
+        return _describe(case, env)
     if kind == "typed":
         env.cover("typed_types", "+".join(sorted(set(case["types"]))))
         if not _compare(env, case["sql"], "typed", case["types"]):
@@ -486,6 +489,49 @@ def _reshape(case: dict, env: core.Env) -> None:
             except Exception:  # noqa: BLE001
                 pass
         fs.duck_conn.close()
+
+
+def _describe(case: dict, env: core.Env) -> None:
+    """cursor.describe(q) over HTTP: the description executing q would give, as in process, and nothing is executed."""
+    r = random.Random(case["seed"])
+    if _state.get("http") is None:
+        _resync()
+    hc, lc = _state["http"].cursor(), _state["local"].cursor()
+    queries = ["SELECT ID, NAME, AGE, SCORE FROM PEOPLE", "SELECT COUNT(*) AS N, MAX(SCORE) AS M FROM PEOPLE", "SELECT 1 AS A, 'x' AS B, 1.5 AS C, CURRENT_DATE AS D",
+               "SELECT * FROM ORDERS o JOIN PEOPLE p ON p.ID = o.ID", "SELECT NAME FROM PEOPLE WHERE 1 = 0"]
+    for sql in r.sample(queries, 3):
+        env.count("cmp_description")
+        try:
+            ld = [tuple(x) for x in lc.describe(sql)]
+        except Exception:  # noqa: BLE001
+            continue
+        try:
+            hd = [tuple(x) for x in hc.describe(sql)]
+        except Exception as e:  # noqa: BLE001
+            env.witness(f"C17/describe/http-raises/{type(e).__name__}", f"describe({sql!r}) over HTTP: {e}"[:300])
+            continue
+        if hd != ld:
+            env.witness("C17/describe/differs", f"describe({sql!r}): in-process {ld} http {hd}"[:900])
+    # describing a statement with an effect has none, on either side
+    before = (lc.execute("SELECT COUNT(*) FROM ORDERS").fetchall(), hc.execute("SELECT COUNT(*) FROM ORDERS").fetchall())
+    for side, cur in (("in-process", lc), ("http", hc)):
+        # (a refused describe over HTTP is an HTTP 500 that the connector retries for seconds: one statement, every 4th case)
+        effects = ("INSERT INTO ORDERS (ID) VALUES (777001)", "DELETE FROM ORDERS", "CREATE TABLE MADE_BY_DESCRIBE (ID INT)")
+        if side == "http":
+            effects = (effects[case["seed"] % 3],) if case["seed"] % 4 == 0 else ()
+        for sql in effects:
+            try:
+                cur.describe(sql)
+            except Exception:  # noqa: BLE001
+                pass  # describing non-queries may be refused (a C06 finding); it must not run them
+    env.count("cmp_rows")
+    after = (lc.execute("SELECT COUNT(*) FROM ORDERS").fetchall(), hc.execute("SELECT COUNT(*) FROM ORDERS").fetchall())
+    made = [bool(core.run_stmt(c_, "SELECT 1 FROM MADE_BY_DESCRIBE")["ok"]) for c_ in (lc, hc)]
+    if after != before or any(made):
+        side = "http" if (after[1] != before[1] or made[1]) else "in-process"
+        env.witness(f"C17/describe/executes-the-statement/{side}", f"ORDERS row counts before {before} after {after}; MADE_BY_DESCRIBE exists (in-process, http) = {made}")
+        _resync()
+    env.nontrivial(("describe", case["seed"]))
 
 
 def _tokens(case: dict, env: core.Env) -> None:
